@@ -458,3 +458,17 @@ func init() {
 		},
 	}
 }
+
+func init() {
+	profiles["C20"] = &profile{
+		config: func(r *RNG, thorough bool) *RunConfig {
+			cfg := baseConfig("C20", r, thorough)
+			cfg.N0 = 1
+			cfg.Stores = []string{"inmem"}
+			return cfg
+		},
+		run: func(c *Cluster, spec *runSpec) {
+			c.runProxyEngine()
+		},
+	}
+}
